@@ -18,7 +18,11 @@ type AssumeCase struct {
 func genAssumeCase(r *Rng, tier string) AssumeCase {
 	n := r.Range(2, 10)
 	var cnf [][]int
-	switch r.Intn(4) {
+	kind := r.Intn(5)
+	switch kind {
+	case 4: // threshold 3-SAT, 11..14 variables: rounds with real search, learned clauses kept across rounds
+		n = r.Range(11, 14)
+		cnf = genKSat(r, n, int(float64(n)*4.1)+r.Range(0, 3), 3)
 	case 0:
 		cnf = genKSat(r, n, r.Range(1, 4*n), 3)
 	case 1:
@@ -26,7 +30,11 @@ func genAssumeCase(r *Rng, tier string) AssumeCase {
 	case 2: // with unit clauses / parse-time propagated facts
 		cnf = genKSat(r, n, r.Range(1, 3*n), r.Range(2, 3))
 		for i := 0; i < r.Range(1, 3); i++ {
-			cnf = append(cnf, []int{randLit(r, n)})
+			u := []int{randLit(r, n)}
+			cnf = append(cnf, u)
+			for r.Chance(1, 3) { // the same unit clause written again: one fact, several lines
+				cnf = append(cnf, append([]int{}, u...))
+			}
 		}
 		cnf = shuffleCnf(r, cnf)
 	default:
@@ -34,6 +42,9 @@ func genAssumeCase(r *Rng, tier string) AssumeCase {
 	}
 	c := AssumeCase{NbVars: n, Cnf: cnf}
 	rounds := r.Range(1, 6)
+	if kind == 4 {
+		rounds = r.Range(3, 7)
+	}
 	for i := 0; i < rounds; i++ {
 		var a []int
 		switch r.Intn(8) {
@@ -59,6 +70,9 @@ func genAssumeCase(r *Rng, tier string) AssumeCase {
 			a = []int{l, l}
 		default:
 			k := r.Range(1, min2(n, 4))
+			if kind == 4 {
+				k = r.Range(1, 2) // few assumptions: the round stays hard, and their consequences sit at level 1
+			}
 			a = randClauseDistinct(r, n, k)
 		}
 		c.Rounds = append(c.Rounds, a)
@@ -69,7 +83,7 @@ func genAssumeCase(r *Rng, tier string) AssumeCase {
 func init() {
 	register(&Prop{
 		ID: "C10",
-		Rule: "base CNF over 2..10 variables (uniform 2/3-SAT, with or without unit clauses, or messy clauses with duplicate literals / tautologies) and 1..6 rounds of assumption lists: empty, 1..4 distinct literals, a repetition or the negation of the previous round, a list containing a literal and its negation, a list repeating a literal. Every round (Assume, then Solve unless Assume already answered Unsat) is compared with the verified exhaustive verdict on formula AND that round's assumptions, and the model is evaluated on the formula as written and on the assumptions. Non-trivial = at least two rounds with different verdicts or a round with a conflict; distinct = distinct (formula, rounds).",
+		Rule: "base CNF over 2..10 variables (uniform 2/3-SAT, with or without unit clauses - some written several times -, or messy clauses with duplicate literals / tautologies) or threshold 3-SAT over 11..14 variables with 3..7 rounds of 1..2 assumptions and 1..6 rounds of assumption lists: empty, 1..4 distinct literals, a repetition or the negation of the previous round, a list containing a literal and its negation, a list repeating a literal. Every round (Assume, then Solve unless Assume already answered Unsat) is compared with the verified exhaustive verdict on formula AND that round's assumptions, and the model is evaluated on the formula as written and on the assumptions; the rounds are replayed through the abstract machine GS.Cdcl (a learned clause must follow from the formula alone) and sampled conflict analyses (with their assumption flags) are compared with the Lean mirror GS.Analyze. Non-trivial = at least two rounds with different verdicts or a round with a conflict; distinct = distinct (formula, rounds).",
 		Gens:    []Gen{{Name: "rounds", Weight: 1, Make: func(r *Rng, tier string) interface{} { return genAssumeCase(r, tier) }}},
 		Run:     runAssumeCase,
 		Cases:   defCases(4000, 100000),
@@ -99,6 +113,11 @@ func runAssumeCase(o *Oracle, d json.RawMessage, oc *Outcome) {
 		oc.Tag("base-parse-unsat")
 	}
 	s := solver.New(pb)
+	analyses := sampleAnalyses(s, 10, 15, 40)
+	defer func() {
+		s.VerifSetAnalyzeHook(nil)
+		analysisMirror(o, oc, *analyses, "solver.Assume+Solve")
+	}()
 	// refinement through GS.Cdcl with assume events; the lines emitted during Assume itself
 	// echo the assumed literals (addLearnedUnit) and are not learn events
 	replay := pb.Status != solver.Unsat
